@@ -163,6 +163,61 @@ fn misdeclared_guard(rng: &mut Rng) -> (T, T) {
     (call(36, vec![quote(int(declared as i128)), quote(int(ext)), quote(body), quote(atom(&[]))]), T::nil())
 }
 
+/// one program from the union of the directed generators
+fn corpus_program(rng: &mut Rng, allow_softfork: bool) -> (T, T) {
+    let from_line = |l: &str, pi: usize| -> (T, T) {
+        let w: Vec<&str> = l.split(' ').collect();
+        (trees::from_hex(w[pi]).unwrap_or(T::nil()), w.get(pi + 1).and_then(|e| trees::from_hex(e)).unwrap_or(T::nil()))
+    };
+    let op_line = |l: &str| -> (T, T) {
+        let w: Vec<&str> = l.split(' ').collect();
+        let code: u8 = match w[2] {
+            "op_add" => 16, "op_subtract" => 17, "op_multiply" => 18, "op_div" => 19, "op_divmod" => 20, "op_gr" => 21, "op_ash" => 22,
+            "op_lsh" => 23, "op_logand" => 24, "op_logior" => 25, "op_logxor" => 26, "op_lognot" => 27, "op_mod" => 61, "op_modpow" => 60,
+            _ => 16,
+        };
+        let args = trees::from_hex(w[5]).unwrap_or(T::nil());
+        let mut items = vec![];
+        let mut cur = &args;
+        while let T::Pair(a, b) = cur {
+            items.push(quote((**a).clone()));
+            cur = b;
+        }
+        (call(code, items), T::nil())
+    };
+    match rng.below(13) {
+        0 => alias_heavy_program(rng),
+        1 => garbage_program(rng),
+        2 => bls_point_program(rng),
+        3 => bls_valid_program(rng),
+        4 => gc_pair_program(rng),
+        5 => progs::random_path_program(rng),
+        6 => secp4_program(rng),
+        7 if allow_softfork => misdeclared_guard(rng),
+        8 if allow_softfork => {
+            let lines = progs::generate_run_softfork_args(rng, 0, "quick");
+            from_line(&lines[rng.below(lines.len() as u64) as usize], 6)
+        }
+        9 if allow_softfork => {
+            let c = progs::huge_cost_corpus();
+            c[rng.below(c.len() as u64) as usize].clone()
+        }
+        10 => {
+            let lines = progs::generate_op_fastpath(rng, 0, "quick");
+            op_line(&lines[rng.below(lines.len() as u64) as usize])
+        }
+        11 => {
+            let lines = progs::generate_op_limits(rng, 0, "quick");
+            op_line(&lines[rng.below(lines.len() as u64) as usize])
+        }
+        _ => {
+            let c = crate::refclvm::corpus();
+            let (p, e) = c[rng.below(c.len() as u64) as usize].clone();
+            if !allow_softfork && uses_softfork(&p) { random_program(rng, 20, false) } else { (p, e) }
+        }
+    }
+}
+
 /// BLS operators of the standard table applied to *valid* points (computed inside the program by
 /// pubkey_for_exp / g2_map): operators with identical costs and validation (g2_add / g2_subtract, g1 …)
 /// can only be told apart by the resulting point
@@ -293,6 +348,10 @@ pub fn oracle(name: &str, rng: &mut Rng, n: usize, tier: &str) -> OracleReport {
             secp4_program(rng)
         } else if name == "hide" && i % 5 == 2 {
             misdeclared_guard(rng)
+        } else if i % 3 == 2 {
+            // every oracle also draws from the union of all directed generators (a defect found through
+            // one property's corpus is usually visible through another property's oracle as well)
+            corpus_program(rng, name != "runtime")
         } else {
             random_program(rng, 30, name != "runtime")
         };
